@@ -315,6 +315,13 @@ func (ex *Exchange[H]) GetRangeByHeight(
 		),
 	)
 	defer span.End()
+	// the requested range is (from.Height():to), ensure there is at least one header in it,
+	// otherwise the amount below underflows
+	if to <= from.Height()+1 {
+		err := fmt.Errorf("%w: empty range (%d:%d)", header.ErrRangeMixUp, from.Height(), to)
+		span.SetStatus(codes.Error, err.Error())
+		return nil, err
+	}
 	session := newSession[H](
 		ex.ctx,
 		ex.host,
